@@ -1323,4 +1323,493 @@ Section Bridge.
       destruct m as [| | | | | | | |[|]| | |]; try discriminate Hm; cbn [py_is_none bind py_or_val py_truthy length Nat.eqb negb].
       all: exact (intd_loop kv (PDict im) _ HK kv [] Hks Hd (fun p q Hp => match Hp with end)).
     Qed.
+
+    (* ---- serialize_internal on an instance *)
+    Definition strip (d : list (pystr * pyval)) : list (pystr * pyval) :=
+      filter (fun p => negb (str_in (fst p) internal_names)) d.
+
+    Definition is_pstr' (v : pyval) : bool := match v with PStr _ => true | _ => false end.
+
+    (* instance.__dict__ as Python has it: the internal entries, and public attributes with well-formed values *)
+    Definition pyinst_ok (d : list (pystr * pyval)) : bool :=
+      forallb (fun p => str_in (fst p) internal_names || (public_name (fst p) && val_ok (snd p))) d &&
+      distinct_names (map fst d) &&
+      match alist_get d (s2p "_none_fields") with
+      | None => true
+      | Some (PSet _ l) => forallb is_pstr' l
+      | Some _ => false
+      end.
+
+    (* defaults of the declared fields are well-formed values *)
+    Definition defaults_ok : bool :=
+      forallb (fun c => forallb (fun fd => match fd_default fd with Some x => val_ok x | None => true end) (c_fields c)) e.
+
+    Definition internal_model (compact : bool) (cn : pystr) (d : list (pystr * pyval)) : res pyval :=
+      match find_class e cn with
+      | Some c =>
+          match (if compact then compact_eligible c else None) with
+          | Some fd =>
+              sval rec (fd_field fd)
+                   (match alist_get (strip d) (fd_name fd) with
+                    | Some x => x
+                    | None => match fd_default fd with Some x => x | None => PNone end
+                    end)
+          | None => kv <- ser_attrs re_match e ens rec c (strip d) ;; Ok (PDict kv)
+          end
+      | None => Raise Unmodelled
+      end.
+
+    Lemma class_index_find : forall (l : env) cn n,
+        match class_index l cn n with
+        | Some (i, c) => find_class l cn = Some c /\ (n <= i)%nat /\ nth_error l (i - n) = Some c
+        | None => find_class l cn = None
+        end.
+    Proof.
+      induction l as [|c t IH]; intros cn n; [reflexivity|].
+      cbn [class_index find_class]. destruct (pystr_eqb (c_name c) cn).
+      - split; [reflexivity|]. split; [lia|]. rewrite Nat.sub_diag. reflexivity.
+      - specialize (IH cn (S n)). destruct (class_index t cn (S n)) as [[i c']|]; [|exact IH].
+        destruct IH as (H1 & H2 & H3). split; [exact H1|]. split; [lia|].
+        replace (i - n)%nat with (S (i - S n)) by lia. exact H3.
+    Qed.
+
+    Lemma class_ok_of cn c : find_class e cn = Some c -> class_ok c = true /\ c_name c = cn.
+    Proof.
+      unfold env_ok in Henv. revert Henv. induction e as [|c' t IH]; intros He H; [discriminate|].
+      cbn [forallb] in He. apply andb_true_iff in He as [Hc Ht]. cbn [find_class] in H.
+      destruct (pystr_eqb (c_name c') cn) eqn:E.
+      - inversion H; subst. split; [exact Hc|apply pystr_eqb_spec, E].
+      - apply IH; assumption.
+    Qed.
+
+    Fixpoint find_idx (l : list fdecl) (k : pystr) (i : nat) : option (nat * fdecl) :=
+      match l with
+      | [] => None
+      | d :: t => if pystr_eqb (fd_name d) k then Some (i, d) else find_idx t k (S i)
+      end.
+
+    Lemma find_idx_spec : forall l k o,
+        match find_idx l k o with
+        | Some (i, fd) => find_field l k = Some fd /\ (o <= i)%nat /\ nth_error l (i - o) = Some fd
+        | None => find_field l k = None
+        end.
+    Proof.
+      induction l as [|d t IH]; intros k o; [reflexivity|].
+      cbn [find_idx find_field]. destruct (pystr_eqb (fd_name d) k).
+      - split; [reflexivity|]. split; [lia|]. rewrite Nat.sub_diag. reflexivity.
+      - specialize (IH k (S o)). destruct (find_idx t k (S o)) as [[i fd]|]; [|exact IH].
+        destruct IH as (H1 & H2 & H3). split; [exact H1|]. split; [lia|].
+        replace (i - o)%nat with (S (i - S o)) by lia. exact H3.
+    Qed.
+
+    Lemma fields_kv_get ci : forall fs k o,
+        dict_get (map (fun p => (PStr (fd_name (snd p)), iref [N.of_nat ci; N.of_nat (fst p)])) (combine (seq o (length fs)) fs)) (PStr k) =
+        match find_idx fs k o with Some (i, _) => Some (iref [N.of_nat ci; N.of_nat i]) | None => None end.
+    Proof.
+      induction fs as [|d t IH]; intros k o; [reflexivity|].
+      cbn [length seq combine map dict_get find_idx fst snd py_eq].
+      destruct (pystr_eqb (fd_name d) k); [reflexivity|]. apply IH.
+    Qed.
+
+    Lemma idmap_get : forall fs k,
+        dict_get (map (fun fd => (PStr (fd_name fd), PStr (fd_name fd))) fs) (PStr k) =
+        match find_field fs k with Some _ => Some (PStr k) | None => None end.
+    Proof.
+      induction fs as [|d t IH]; intros k; [reflexivity|].
+      cbn [map dict_get find_field py_eq]. destruct (pystr_eqb (fd_name d) k) eqn:E; [|apply IH].
+      apply pystr_eqb_spec in E. rewrite E. reflexivity.
+    Qed.
+
+    Lemma find_field_bad fs k : forallb (fun fd => fname_ok (fd_name fd)) fs = true -> fname_ok k = false -> find_field fs k = None.
+    Proof.
+      intros H Hk. induction fs as [|d t IH]; [reflexivity|].
+      cbn [forallb] in H. apply andb_true_iff in H as [Hd Ht]. cbn [find_field].
+      destruct (pystr_eqb (fd_name d) k) eqn:E; [|apply IH, Ht].
+      apply pystr_eqb_spec in E. rewrite E in Hd. congruence.
+    Qed.
+
+    Lemma dotted_not_fname k : fname_ok (List.app k (List.app (s2p "._mapper") (@nil N))) = false.
+    Proof.
+      unfold fname_ok. apply andb_false_iff. right. apply negb_false_iff.
+      rewrite existsb_app. apply orb_true_iff. right. reflexivity.
+    Qed.
+
+    Lemma nonpublic_not_fname k : public_name k = false -> fname_ok k = false.
+    Proof. intro H. unfold fname_ok. rewrite H. reflexivity. Qed.
+
+    Section OneClass.
+      Variables (cn : pystr) (c : classdef) (ci : nat).
+      Hypothesis Hci : class_index e cn 0 = Some (ci, c).
+
+      Lemma Hfind : find_class e cn = Some c.
+      Proof. pose proof (class_index_find e cn 0) as H. rewrite Hci in H. exact (proj1 H). Qed.
+
+      Lemma Hnth : nth_error e ci = Some c.
+      Proof. pose proof (class_index_find e cn 0) as H. rewrite Hci in H. destruct H as (_ & _ & H). rewrite Nat.sub_0_r in H. exact H. Qed.
+
+      Lemma Hcok : class_ok c = true.
+      Proof. exact (proj1 (class_ok_of _ _ Hfind)). Qed.
+
+      Lemma Hfields_ok : forallb (fun fd => fname_ok (fd_name fd)) (c_fields c) = true.
+      Proof. pose proof Hcok as H. unfold class_ok in H. apply andb_true_iff in H as [_ H]. exact H. Qed.
+
+      Lemma Hcn_unknown : class_known tbl cn = false.
+      Proof.
+        pose proof Hcok as H. unfold class_ok in H. apply andb_true_iff in H as [H _]. apply andb_true_iff in H as [H _].
+        rewrite (proj2 (class_ok_of _ _ Hfind)) in H. apply negb_true_iff, H.
+      Qed.
+
+      Lemma field_at_env fi fd : nth_error (c_fields c) fi = Some fd -> at' [N.of_nat ci; N.of_nat fi] = Some (fd_field fd).
+      Proof.
+        intro H. unfold at_, field_at, forest. rewrite !Nat2N.id.
+        rewrite nth_error_app1 by (rewrite map_length; apply nth_error_Some; rewrite Hnth; discriminate).
+        rewrite (map_nth_error _ _ _ Hnth). rewrite (map_nth_error _ _ _ H). reflexivity.
+      Qed.
+
+      Lemma anc_of_class : w_anc W cn = Some (c_ancestors c ++ [s2p "Structure"]).
+      Proof. cbn [w_anc ser_world]. unfold world_anc. rewrite Hfind. reflexivity. Qed.
+
+      Lemma str_in_unknown k l : class_known tbl k = true -> forallb (fun a => negb (class_known tbl a)) l = true -> str_in k l = false.
+      Proof.
+        intros Hk Hl. unfold str_in. destruct (existsb (pystr_eqb k) l) eqn:E; [|reflexivity].
+        apply existsb_exists in E as (a & Ha & E). apply pystr_eqb_spec in E. subst a.
+        rewrite forallb_forall in Hl. specialize (Hl _ Ha). rewrite Hk in Hl. discriminate Hl.
+      Qed.
+
+      Lemma issub_user ks :
+        sv_issubclass tbl W (ref cn) ks = Ok (existsb (fun k => str_in k (cn :: c_ancestors c ++ [s2p "Structure"])) ks).
+      Proof. unfold sv_issubclass, ref. rewrite tag_ref_ref, Hcn_unknown, anc_of_class. reflexivity. Qed.
+
+      Lemma not_fast : sv_issubclass tbl W (ref cn) [s2p "FastSerializable"] = Ok false.
+      Proof.
+        rewrite issub_user. cbn [existsb]. rewrite orb_false_r. f_equal.
+        rewrite str_in_cons. apply orb_false_iff. split.
+        - destruct (pystr_eqb (s2p "FastSerializable") cn) eqn:E; [|reflexivity].
+          apply pystr_eqb_spec in E. pose proof Hcn_unknown as H. rewrite <- E in H. vm_compute in H. discriminate H.
+        - unfold str_in. rewrite existsb_app. apply orb_false_iff. split; [|reflexivity].
+          apply (str_in_unknown (s2p "FastSerializable")); [vm_compute; reflexivity|].
+          pose proof Hcok as H. unfold class_ok in H. apply andb_true_iff in H as [H _]. apply andb_true_iff in H as [_ H]. exact H.
+      Qed.
+
+      Lemma is_structure_cls : sv_issubclass tbl W (ref cn) [s2p "Structure"] = Ok true.
+      Proof. rewrite issub_user. cbn [existsb]. rewrite str_in_cons, str_in_snoc, orb_true_r. reflexivity. Qed.
+
+      Lemma cattr_fields : sv_getattr W (ref cn) (s2p "get_all_fields_by_name()") = Ok (PDict (fields_kv ci (c_fields c))).
+      Proof. unfold sv_getattr, sv_lookup, ref. rewrite tag_ref_ref. cbn [w_cattr ser_world bind]. unfold world_cattr. rewrite Hci. reflexivity. Qed.
+
+      Lemma cattr_dict : sv_getattr W (ref cn) str_dict = Ok (class_dict c).
+      Proof. unfold sv_getattr, sv_lookup, ref. rewrite tag_ref_ref. cbn [w_cattr ser_world bind]. unfold world_cattr. rewrite Hci. reflexivity. Qed.
+    End OneClass.
+
+    Section OneInst.
+      Variables (cn : pystr) (c : classdef) (ci : nat) (d : list (pystr * pyval)).
+      Hypothesis Hci : class_index e cn 0 = Some (ci, c).
+      Hypothesis Hd : pyinst_ok d = true.
+
+      Lemma inst_names p : In p d -> str_in (fst p) internal_names = true \/ (public_name (fst p) = true /\ val_ok (snd p) = true).
+      Proof.
+        intro Hp. unfold pyinst_ok in Hd. apply andb_true_iff in Hd as [H _]. apply andb_true_iff in H as [H _].
+        rewrite forallb_forall in H. specialize (H _ Hp). apply orb_true_iff in H as [H|H]; [left; exact H|right; apply andb_true_iff, H].
+      Qed.
+
+      (* a private attribute that is not one of the internal entries: the instance does not have it *)
+      Lemma inst_private_attr a dflt :
+        public_name a = false -> str_in a internal_names = false -> pystr_eqb a str_dict = false ->
+        sv_getattr_def W (PStruct cn d) a dflt = Ok dflt.
+      Proof.
+        intros Hpub Hint Hdd. unfold sv_getattr_def, sv_lookup. rewrite (anc_of_class _ _ _ Hci), Hdd.
+        assert (Hg : alist_get d a = None).
+        { destruct (alist_get d a) as [x|] eqn:E; [|reflexivity]. exfalso.
+          assert (Hin : exists p, In p d /\ fst p = a).
+          { clear -E. induction d as [|[k y] t IH]; [discriminate|]. cbn [alist_get] in E.
+            destruct (pystr_eqb k a) eqn:Ek.
+            - exists (k, y). split; [left; reflexivity|apply pystr_eqb_spec, Ek].
+            - destruct (IH E) as (p & Hp & Hf). exists p. split; [right; exact Hp|exact Hf]. }
+          destruct Hin as (p & Hp & <-). destruct (inst_names _ Hp) as [H|[H _]]; congruence. }
+        rewrite Hg. cbn [w_sattr ser_world]. unfold world_sattr. rewrite (Hfind _ _ _ Hci).
+        rewrite (find_field_bad _ _ (Hfields_ok _ _ _ Hci) (nonpublic_not_fname _ Hpub)). reflexivity.
+      Qed.
+
+      Lemma inst_dict : sv_getattr W (PStruct cn d) str_dict = Ok (PDict (dict_of_attrs d)).
+      Proof. unfold sv_getattr, sv_lookup. rewrite (anc_of_class _ _ _ Hci), pystr_eqb_refl. reflexivity. Qed.
+
+      (* the comprehension over instance.__dict__ with the skip-list of the SOURCE keeps exactly the entries
+         that are not internal *)
+      Lemma skip_list_items :
+        filterM (fun '(k, v) => c0 <- py_not (py_in_lit k [PStr (s2p "_instantiated"); PStr (s2p "_none_fields"); PStr (s2p "_trust_supplied_values")]) ;;
+                                 if c0 then Ok (Some (PTuple [k; v])) else Ok None) (dict_of_attrs d) =
+        Ok (map (fun p => PTuple [PStr (fst p); snd p]) (strip d)).
+      Proof.
+        clear Hd. unfold strip, dict_of_attrs. induction d as [|[k v] t IH]; [reflexivity|].
+        cbn [map filterM fst snd filter]. rewrite IH. clear IH.
+        assert (E : py_in_lit (PStr k) [PStr (s2p "_instantiated"); PStr (s2p "_none_fields"); PStr (s2p "_trust_supplied_values")]
+                    = Ok (str_in k internal_names)).
+        { unfold py_in_lit, py_in, str_in, internal_names. cbn [existsb py_eq]. reflexivity. }
+        rewrite E. cbn [py_not bind]. destruct (str_in k internal_names); reflexivity.
+      Qed.
+    End OneInst.
+
+    Definition tupS (p : pystr * pyval) : pyval := PTuple [PStr (fst p); snd p].
+    Definition attr_model (c : classdef) (p : pystr * pyval) : res (pyval * pyval) :=
+      j <- match find_field (c_fields c) (fst p) with
+           | Some fd => sval rec (fd_field fd) (snd p)
+           | None => ser_any rec (snd p)
+           end ;;
+      Ok (PStr (fst p), j).
+    Definition not_noneS (p : pystr * pyval) : bool := negb (match snd p with PNone => true | _ => false end).
+
+    Lemma ser_attrs_eq c a : ser_attrs re_match e ens rec c a = mapR (attr_model c) (filter not_noneS a).
+    Proof. reflexivity. Qed.
+
+    Section StructLoop.
+      Variables (cn : pystr) (c : classdef) (ci : nat) (d : list (pystr * pyval)).
+      Hypothesis Hci : class_index e cn 0 = Some (ci, c).
+      Hypothesis Hd : pyinst_ok d = true.
+      Variables (imap : pyval) (K : pyval -> res pyval).
+      Hypothesis HK : forall x, K (PDict x) = Ok (PDict x).
+
+      Notation LOOP := (src_serialize_internal_loop2 W R (PStruct cn d) (idmap c) (PBool false) (PDict (fields_kv ci (c_fields c))) imap K).
+
+      Lemma struct_loop_nones : forall ks acc, LOOP (map (fun k => PTuple [k; PNone]) ks) (PDict acc) = Ok (PDict acc).
+      Proof.
+        induction ks as [|k t IH]; intro acc; [cbn [map src_serialize_internal_loop2]; apply HK|].
+        cbn [map src_serialize_internal_loop2 py_unpack2 bind py_is_none py_and].
+        rewrite (inst_private_attr cn c ci d Hci Hd) by reflexivity. cbn [bind py_truthy py_not negb]. apply IH.
+      Qed.
+
+      Lemma struct_loop ks : forall l acc,
+          (forall p, In p l -> public_name (fst p) = true /\ val_ok (snd p) = true) ->
+          distinct_names (map fst l) = true ->
+          (forall p q, In p acc -> In q l -> py_eq (fst p) (PStr (fst q)) = false) ->
+          refines (LOOP (map tupS l ++ map (fun k => PTuple [k; PNone]) ks) (PDict acc))
+                  (r <- mapR (attr_model c) (filter not_noneS l) ;; Ok (PDict (acc ++ r))).
+      Proof.
+        induction l as [|[k v] t IH]; intros acc Hl Hdn Hf.
+        - cbn [map app filter mapR bind]. rewrite struct_loop_nones, app_nil_r. apply refines_refl.
+        - cbn [map app src_serialize_internal_loop2 tupS fst snd py_unpack2 bind].
+          rewrite (inst_private_attr cn c ci d Hci Hd) by reflexivity. cbn [bind py_truthy py_not negb py_and].
+          destruct (Hl (k, v) (or_introl eq_refl)) as [Hk Hv]. cbn [fst snd] in Hk, Hv.
+          cbn [map distinct_names fst] in Hdn. apply andb_true_iff in Hdn as [Hd1 Hd2].
+          destruct (py_is_none v) eqn:Hn.
+          + apply is_none_eq in Hn. subst v. cbn [bind filter not_noneS snd negb].
+            apply IH; [intros p Hp; apply Hl; right; exact Hp|exact Hd2|intros p q Hp Hq; apply Hf; [exact Hp|right; exact Hq]].
+          + cbn [bind]. assert (Hnn : not_noneS (k, v) = true) by (destruct v; try discriminate Hn; reflexivity).
+            cbn [filter]. rewrite Hnn. cbn [mapR].
+            unfold src_get_mapped_value, src_convert_to_camel_case_if_required, idmap.
+            cbn [py_in_dyn py_hashable' py_subscript py_dict_getitem]. unfold dict_has. rewrite !idmap_get.
+            cbn [py_format bind py_dict_get py_hashable']. rewrite idmap_get.
+            rewrite (find_field_bad _ _ (Hfields_ok _ _ _ Hci) (dotted_not_fname k)).
+            unfold fields_kv. rewrite fields_kv_get.
+            pose proof (find_idx_spec (c_fields c) k 0) as Hix. unfold attr_model at 1. cbn [fst snd].
+            assert (Hstep : forall (X M : res pyval),
+                       refines X M ->
+                       refines (t78 <- X ;; t80 <- PyOpsDerive.py_setitem (PDict acc) (PStr k) t78 ;; LOOP (map tupS t ++ map (fun k0 => PTuple [k0; PNone]) ks) t80)
+                               (r <- match (j <- M ;; Ok (PStr k, j)) with
+                                     | Ok y => match mapR (attr_model c) (filter not_noneS t) with Ok ys => Ok (y :: ys) | Raise e0 => Raise e0 end
+                                     | Raise e0 => Raise e0
+                                     end ;; Ok (PDict (acc ++ r)))).
+            { intros X M [Ha|[Ha|Ha]].
+              - rewrite Ha. left; reflexivity.
+              - destruct Ha as (x & Hx & Hmx). rewrite Hx. cbn [bind]. right; left. exists x. split; [reflexivity|exact Hmx].
+              - rewrite Ha. destruct M as [j|ex]; cbn [bind]; [|apply refines_refl].
+                cbn [PyOpsDerive.py_setitem py_hashable' bind].
+                rewrite dict_set_fresh by (intros p Hp; exact (Hf p (k, v) Hp (or_introl eq_refl))).
+                assert (Hfr : forall p q, In p (acc ++ [(PStr k, j)]) -> In q t -> py_eq (fst p) (PStr (fst q)) = false).
+                { intros p q Hp Hq. apply in_app_or in Hp as [Hp|[<-|[]]]; [apply Hf; [exact Hp|right; exact Hq]|].
+                  cbn [fst py_eq]. apply negb_true_iff in Hd1.
+                  destruct (pystr_eqb k (fst q)) eqn:E; [|reflexivity].
+                  rewrite <- Hd1. symmetry. unfold str_in. apply existsb_exists. exists (fst q). split; [apply in_map, Hq|exact E]. }
+                specialize (IH (acc ++ [(PStr k, j)]) (fun p Hp => Hl p (or_intror Hp)) Hd2 Hfr).
+                destruct (mapR (attr_model c) (filter not_noneS t)) as [ys|ex]; cbn [bind] in IH |- *; [|exact IH].
+                rewrite <- app_assoc in IH. exact IH. }
+            destruct (find_idx (c_fields c) k 0) as [[i fd]|] eqn:Hi.
+            * destruct Hix as (Hff & _ & Hnth). rewrite Nat.sub_0_r in Hnth. rewrite Hff.
+              cbn [bind py_isinstance existsb isinstance1 orb py_and sv_class_of].
+              replace (sv_is (bref (s2p "str")) (bref (s2p "str"))) with (@Ok bool true) by reflexivity.
+              cbn [bind]. rewrite sv_is_none_ref. cbn [py_not bind negb py_truthy py_or_val].
+              apply Hstep. apply (ok_val _ _ HR); [exact (field_at_env _ _ _ Hci _ _ Hnth)|reflexivity|exact Hv].
+            * rewrite Hix. cbn [bind py_and py_truthy].
+              rewrite sv_is_none_ref. cbn [py_not bind negb py_truthy py_or_val].
+              apply Hstep. apply (ok_any _ _ HR); [left; reflexivity|reflexivity|exact Hv].
+      Qed.
+    End StructLoop.
+
+    Hypothesis Hdef : defaults_ok = true.
+
+    Lemma default_ok cn c fd x : find_class e cn = Some c -> In fd (c_fields c) -> fd_default fd = Some x -> val_ok x = true.
+    Proof.
+      unfold defaults_ok in Hdef. revert Hdef. induction e as [|c' t IH]; intros He H Hin Hx; [discriminate|].
+      cbn [forallb] in He. apply andb_true_iff in He as [Hc Ht]. cbn [find_class] in H.
+      destruct (pystr_eqb (c_name c') cn).
+      - inversion H; subst. rewrite forallb_forall in Hc. specialize (Hc _ Hin). rewrite Hx in Hc. exact Hc.
+      - apply IH; assumption.
+    Qed.
+
+    Lemma num_eqb_int a b : num_eqb (NInt a) (NInt b) = Z.eqb a b.
+    Proof.
+      unfold num_eqb, Qeq_bool. cbn [num_to_Q Qnum Qden]. rewrite !Z.mul_1_r.
+      unfold Zeq_bool. destruct (Z.eqb_spec a b) as [E|E].
+      - subst. rewrite Z.compare_refl. reflexivity.
+      - destruct (Z.compare_spec a b); try reflexivity. contradiction.
+    Qed.
+
+    Lemma len_is_1 {A} (l : list A) : py_eqv (PNum (NInt (lenZ' l))) (zint 1) = Ok (Nat.eqb (length l) 1).
+    Proof.
+      unfold py_eqv, zint. cbn [py_eq as_num]. rewrite num_eqb_int. unfold lenZ'. f_equal.
+      destruct (Nat.eqb_spec (length l) 1) as [E|E].
+      - rewrite E. reflexivity.
+      - apply Z.eqb_neq. lia.
+    Qed.
+
+    Lemma class_dict_additional c d0 : py_dict_get (class_dict c) (PStr (s2p "_additional_properties")) d0 = Ok (PBool (c_additional c)).
+    Proof. reflexivity. Qed.
+    Lemma class_dict_required c d0 : py_dict_get (class_dict c) (PStr (s2p "_required")) d0 = Ok (PList (map PStr (c_required c))).
+    Proof. reflexivity. Qed.
+
+    Lemma alist_get_strip d k : str_in k internal_names = false -> alist_get (strip d) k = alist_get d k.
+    Proof.
+      intro Hk. unfold strip. induction d as [|[k' v] t IH]; [reflexivity|].
+      cbn [filter fst alist_get]. destruct (str_in k' internal_names) eqn:E; cbn [negb alist_get].
+      - destruct (pystr_eqb k' k) eqn:Ek; [|exact IH]. apply pystr_eqb_spec in Ek. congruence.
+      - rewrite IH. reflexivity.
+    Qed.
+
+    Lemma public_not_internal k : public_name k = true -> str_in k internal_names = false.
+    Proof.
+      intro H. destruct (str_in k internal_names) eqn:E; [|reflexivity]. exfalso.
+      unfold str_in, internal_names in E. cbn [existsb] in E.
+      repeat (apply orb_true_iff in E as [E|E]; [apply pystr_eqb_spec in E; subst k; discriminate H|]). discriminate E.
+    Qed.
+
+    Lemma distinct_filter (f : pystr * pyval -> bool) : forall d, distinct_names (map fst d) = true -> distinct_names (map fst (filter f d)) = true.
+    Proof.
+      induction d as [|[k v] t IH]; intro H; [reflexivity|].
+      cbn [map fst distinct_names] in H. apply andb_true_iff in H as [H1 H2]. cbn [filter].
+      destruct (f (k, v)); [|apply IH, H2]. cbn [map fst distinct_names]. rewrite (IH H2), andb_true_r.
+      apply negb_true_iff. apply negb_true_iff in H1. destruct (str_in k (map fst (filter f t))) eqn:E; [|reflexivity].
+      rewrite <- H1. symmetry. unfold str_in in *. apply existsb_exists in E as (x & Hx & E). apply existsb_exists. exists x. split; [|exact E].
+      apply in_map_iff in Hx as (p & <- & Hp). apply in_map. apply filter_In in Hp. exact (proj1 Hp).
+    Qed.
+
+    Lemma nones_comp ks : filterM (fun k : pyval => Ok (Some (PTuple [k; PNone]))) ks = Ok (map (fun k => PTuple [k; PNone]) ks).
+    Proof. induction ks as [|k t IH]; [reflexivity|]. cbn [filterM map bind]. rewrite IH. reflexivity. Qed.
+
+    Lemma ints_body cn d m rm (compact : bool) :
+      mapper_off m = true -> rm_ok cn rm -> pyinst_ok d = true ->
+      refines (src_serialize_internal W R (PStruct cn d) m rm (PBool compact) PF) (internal_model compact cn d).
+    Proof.
+      intros Hm Hrm Hd. unfold internal_model.
+      pose proof (class_index_find e cn 0) as Hix.
+      destruct (class_index e cn 0) as [[ci c]|] eqn:Hci.
+      2:{ rewrite Hix. apply refines_unm. }
+      destruct Hix as (Hfc & _ & _). rewrite Hfc.
+      unfold src_serialize_internal, PF. cbn [sv_class_of bind].
+      rewrite (not_fast _ _ _ Hci). cbn [py_and bind].
+      rewrite (is_structure_cls _ _ _ Hci). cbn [bind]. rewrite (cattr_fields _ _ _ Hci). cbn [bind].
+      rewrite (struct_isinst _ _ c) by (exact Hfc || reflexivity). cbn [bind].
+      (* the mapper: the identity renaming of the class *)
+      assert (Hmap : (if py_truthy rm then Ok rm
+                      else (t8 <- sv_ext W (s2p "aggregate_serialization_mappers") [ref cn; m; PBool false] ;; Ok t8)) = Ok (idmap c)).
+      { rewrite (ext_aggregate _ _ _ Hfc Hm). cbn [bind].
+        destruct Hrm as [Hoff|(c' & Hc' & ->)].
+        - destruct rm as [| | | | | | | |[|]| | |]; try discriminate Hoff; reflexivity.
+        - rewrite Hfc in Hc'. inversion Hc'; subst c'. unfold idmap. destruct (c_fields c); reflexivity. }
+      rewrite Hmap. cbn [bind]. change (py_is_none (idmap c)) with false. cbn [bind].
+      rewrite cattr_generator_ty. cbn [bind]. rewrite not_generator by exact I.
+      (* _none_fields *)
+      assert (Hnf : exists ks, (t14 <- sv_getattr_def W (PStruct cn d) (s2p "_none_fields") (PList []) ;; py_iter t14) = Ok ks /\ forallb is_pstr' ks = true).
+      { unfold sv_getattr_def, sv_lookup. rewrite (anc_of_class _ _ _ Hci).
+        change (pystr_eqb (s2p "_none_fields") str_dict) with false. cbv iota.
+        pose proof Hd as Hd'. unfold pyinst_ok in Hd'. apply andb_true_iff in Hd' as [_ Hd'].
+        destruct (alist_get d (s2p "_none_fields")) as [x|].
+        - destruct x; try discriminate Hd'. exists l. split; [reflexivity|exact Hd'].
+        - cbn [w_sattr ser_world]. unfold world_sattr. rewrite Hfc.
+          rewrite (find_field_bad _ _ (Hfields_ok _ _ _ Hci)) by reflexivity. exists []. split; reflexivity. }
+      destruct Hnf as (ks & Hks & Hkstr).
+      rewrite <- (bind_assoc (sv_getattr_def W (PStruct cn d) (s2p "_none_fields") (PList [])) py_iter).
+      rewrite Hks. cbn [bind]. rewrite nones_comp. cbn [bind py_isinstance existsb isinstance1 orb].
+      change (s2p "__dict__") with str_dict.
+      rewrite (inst_dict _ _ _ _ Hci). cbn [bind py_dict_items]. rewrite skip_list_items. cbn [bind py_add].
+      rewrite (cattr_dict _ _ _ Hci). cbn [bind py_keys_val py_dict_keys py_dict_items py_list_of py_iter].
+      rewrite cattr_typedpy_additional. cbn [bind]. rewrite class_dict_additional, class_dict_required. cbn [bind py_len].
+      rewrite len_is_1. rewrite map_length. unfold fields_kv at 1. rewrite map_length, combine_length, seq_length, Nat.min_id.
+      (* the attribute loop *)
+      assert (HK : forall x, (fun v_result : pyval =>
+          c1 <- (t84 <- sv_getattr_def W (PStruct cn d) (s2p "_additional_serialization") PNone;; Ok (py_truthy t84));;
+          (if c1
+           then
+            t85 <- sv_getattr W (PStruct cn d) (s2p "_additional_serialization()");;
+            c2 <- py_not (Ok (py_isinstance t85 [K_dict]));;
+            (if c2 then Raise TypeError
+             else t87 <- py_dict_items t85;;
+                  src_serialize_internal_loop3 W R (fun v_result_96 : pyval => Ok v_result_96) t87 v_result)
+           else Ok v_result)) (PDict x) = Ok (PDict x)).
+      { intro x. cbv beta. rewrite (inst_private_attr _ _ _ _ Hci Hd) by reflexivity. reflexivity. }
+      match goal with |- refines (c0 <- ?C ;; if c0 then ?T else ?E) ?M =>
+        assert (Helse : refines E (kv <- ser_attrs re_match e ens rec c (strip d);; Ok (PDict kv))) end.
+      { assert (Hor : py_or_val (Ok (idmap c)) (fun _ : unit => Ok (PDict [])) = Ok (idmap c)) by (unfold idmap; destruct (c_fields c); reflexivity).
+        rewrite Hor. cbn [bind py_dict_of_val].
+        set (L := map (fun p : pystr * pyval => PTuple [PStr (fst p); snd p]) (strip d) ++ map (fun k : pyval => PTuple [k; PNone]) ks).
+        assert (HL : L = map tup (map (fun p => (PStr (fst p), snd p)) (strip d) ++ map (fun k => (k, PNone)) ks)).
+        { unfold L. rewrite map_app, !map_map. reflexivity. }
+        rewrite HL at 1. rewrite unpack_all_tups. cbn [bind]. unfold py_dict_of.
+        destruct (dict_build_ok (map (fun p => (PStr (fst p), snd p)) (strip d) ++ map (fun k => (k, PNone)) ks) []) as [im Him].
+        { intros p Hp. apply in_app_or in Hp as [Hp|Hp]; apply in_map_iff in Hp as (q & <- & Hq); [reflexivity|].
+          rewrite forallb_forall in Hkstr. specialize (Hkstr _ Hq). destruct q; try discriminate Hkstr; reflexivity. }
+        rewrite Him. cbn [bind]. rewrite ser_attrs_eq.
+        pose proof (struct_loop cn c ci d Hci Hd (PDict im) _ HK ks (strip d) []) as HL2.
+        cbn [app] in HL2. apply HL2.
+        - intros p Hp. unfold strip in Hp. apply filter_In in Hp as [Hp Hni]. apply negb_true_iff in Hni.
+          destruct (inst_names d Hd p Hp) as [Hi|Hi]; [congruence|exact Hi].
+        - apply distinct_filter. unfold pyinst_ok in Hd. apply andb_true_iff in Hd as [Hd' _]. apply andb_true_iff in Hd' as [_ Hd']. exact Hd'.
+        - intros p q []. }
+      destruct (c_fields c) as [|fd [|fd2 rest]] eqn:Hfs.
+      - cbn [length Nat.eqb py_and bind].
+        replace (if compact then compact_eligible c else None) with (@None fdecl) by (unfold compact_eligible; rewrite Hfs; destruct compact; reflexivity).
+        exact Helse.
+      - cbn [length Nat.eqb py_and bind fields_kv seq combine map fst snd].
+        assert (Hcond : exists b : bool,
+                   py_and (py_eqv (PList (map PStr (c_required c))) (PList [PStr (fd_name fd)]))
+                          (fun _ : unit => if py_is_false (PBool (c_additional c)) then Ok (py_truthy (PBool compact)) else Ok false) = Ok b /\
+                   (if compact then compact_eligible c else None) = if b then Some fd else None).
+        { unfold compact_eligible. rewrite Hfs.
+          destruct (c_required c) as [|r [|r2 rr]]; cbn [map py_eqv py_eq py_and bind].
+          - exists false. split; [reflexivity|destruct compact; reflexivity].
+          - rewrite andb_true_r. destruct (pystr_eqb r (fd_name fd)); cbn [andb];
+              destruct (c_additional c), compact; cbn [py_is_false py_truthy negb]; eexists; split; reflexivity.
+          - rewrite andb_false_r. exists false. split; [reflexivity|destruct compact; reflexivity]. }
+        destruct Hcond as (b & Hb & Hmodel). rewrite Hb, Hmodel. cbn [bind]. destruct b; [|exact Helse].
+        (* the compact form: the single field's value *)
+        unfold zint at 1. cbn [py_subscript]. change (seq_index [PStr (fd_name fd)] 0) with (@Ok pyval (PStr (fd_name fd))).
+        cbn [bind py_dict_get py_hashable' dict_get py_eq]. rewrite pystr_eqb_refl. cbn [bind sv_getattr_dyn].
+        pose proof (Hfields_ok _ _ _ Hci) as Hfn. rewrite Hfs in Hfn. cbn [forallb] in Hfn. rewrite andb_true_r in Hfn.
+        unfold fname_ok in Hfn. apply andb_true_iff in Hfn as [Hpub _].
+        rewrite (alist_get_strip _ _ (public_not_internal _ Hpub)).
+        assert (Hcur : exists cur, sv_getattr W (PStruct cn d) (fd_name fd) = Ok cur /\ val_ok cur = true /\
+                          cur = match alist_get d (fd_name fd) with Some x => x | None => match fd_default fd with Some x => x | None => PNone end end).
+        { unfold sv_getattr, sv_lookup. rewrite (anc_of_class _ _ _ Hci).
+          replace (pystr_eqb (fd_name fd) str_dict) with false.
+          2:{ symmetry. apply pystr_eqb_neq. intro E. rewrite E in Hpub. discriminate Hpub. }
+          destruct (alist_get d (fd_name fd)) as [x|] eqn:Hx.
+          - exists x. split; [reflexivity|]. split; [|reflexivity].
+            assert (Hin : In (fd_name fd, x) d \/ exists k, In (k, x) d /\ k = fd_name fd).
+            { right. clear -Hx. induction d as [|[k y] t IH]; [discriminate|]. cbn [alist_get] in Hx.
+              destruct (pystr_eqb k (fd_name fd)) eqn:Ek.
+              - inversion Hx; subst. exists k. split; [left; reflexivity|apply pystr_eqb_spec, Ek].
+              - destruct (IH Hx) as (k' & Hk' & E). exists k'. split; [right; exact Hk'|exact E]. }
+            destruct Hin as [Hin|(k & Hin & ->)]; destruct (inst_names d Hd _ Hin) as [Hi|[_ Hi]]; try exact Hi;
+              cbn [fst] in Hi; rewrite (public_not_internal _ Hpub) in Hi; discriminate Hi.
+          - cbn [w_sattr ser_world]. unfold world_sattr. rewrite Hfc, Hfs. cbn [find_field]. rewrite pystr_eqb_refl. cbn [bind].
+            eexists. split; [reflexivity|]. split; [|reflexivity].
+            destruct (fd_default fd) as [x|] eqn:Hdx; [|reflexivity].
+            apply (default_ok cn c fd x Hfc); [rewrite Hfs; left; reflexivity|exact Hdx]. }
+        destruct Hcur as (cur & Hg & Hvc & Hce). rewrite Hg, <- Hce. cbn [bind].
+        rewrite (inst_private_attr _ _ _ _ Hci Hd) by reflexivity. cbn [bind py_truthy].
+        apply refines_ret. apply (ok_val _ _ HR); [|reflexivity|exact Hvc].
+        change [N.of_nat ci; N.of_nat 0] with [N.of_nat ci; N.of_nat 0].
+        apply (field_at_env _ _ _ Hci 0%nat fd). rewrite Hfs. reflexivity.
+      - cbn [length Nat.eqb py_and bind].
+        replace (if compact then compact_eligible c else None) with (@None fdecl) by (unfold compact_eligible; rewrite Hfs; destruct compact; reflexivity).
+        exact Helse.
+    Qed.
 End Bodies. End Bridge.
